@@ -93,10 +93,12 @@ def full_width(curves, rng, quick, grp_scale=1.0, mul_scale=1.0):
         corners = gen_ep.scalar_corners(cv, rng, nrand=4 if quick else 12, nlong=3 if quick else 10)
         per_op = max(6, int((18 if quick else 0.6 * len(corners)) * mul_scale))
 
-        def ks_for(op, corners=corners, per_op=per_op):
+        must = [0, cv.n, 2 * cv.n, -cv.n, cv.n - 1, cv.n + 1, 1, -1]       # for EVERY routine: multiples of the order and their neighbours
+
+        def ks_for(op, corners=corners, per_op=per_op, must=must):
             if per_op >= len(corners):
                 return list(corners)
-            return rng.sample(corners, per_op)
+            return must + rng.sample(corners, per_op)
         pms = [m for m in ms if m % cv.n != 0]
         m = gen_ep.mul_cases(cv, rng, ks_for, pms)
         # identity as the point operand, 0 / n as the scalar, for every variable-base routine
